@@ -36,6 +36,8 @@ TLaunch ==
     /\ store' = Fold(Ev.given.env, Ev.given.file, Ev.given.cli) /\ step' = 4
     /\ LET bad == {"C12." \o s : s \in {x \in Setting : Ev.obs[x] # "n/a"
                                           /\ ~Matches(x, Ev.obs[x], Effective(Ev.given.env, Ev.given.file, Ev.given.cli, x))}}
+                  \* every generated configuration is valid: a server that does not come up with it (while the same
+                  \* settings given on the command line alone do start, which the checker verifies) is not using them
                   \cup (IF Ev.started THEN {} ELSE {"C12.server_did_not_start"})
        IN /\ (IF bad = {} THEN TRUE ELSE PrintT(<<"FAIL", ToJson([i |-> l, props |-> bad])>>))
           /\ nfail' = nfail + (IF bad = {} THEN 0 ELSE 1)
